@@ -1,5 +1,6 @@
 import Copia.Driver.Util
 import Copia.Model.Bisync
+import Copia.Model.Crash
 namespace Copia.Driver.C02
 open Copia.Bisync Copia.Reconcile Copia.Driver
 
@@ -53,3 +54,28 @@ def handle : List String → Option String
   | _ => none
 
 end Copia.Driver.C02
+
+namespace Copia.Driver.C08
+open Copia.Bisync Copia.Crash Copia.Driver Copia.Driver.C02
+
+def sideS : Side → String | .A => "A" | .B => "B"
+
+def showStep : FsStep String String → String
+  | .stage s p _ => s!"stage:{sideS s}:{hexStr p}"
+  | .sync s p => s!"sync:{sideS s}:{hexStr p}"
+  | .publish s p => s!"publish:{sideS s}:{hexStr p}"
+  | .unlink s p => s!"unlink:{sideS s}:{hexStr p}"
+  | .archStage => "archStage"
+  | .archSync => "archSync"
+  | .archBak => "archBak"
+  | .archPublish => "archPublish"
+
+def handle : List String → Option String
+  | ["bisteps", host, a, b, z, af] => do
+    let host ← unhexStr host
+    let s ← parseState a b z
+    let st := steps pathLe (fun x y => decide (x ≥ y)) (cname host) s (af = "1")
+    some (if st.isEmpty then "-" else ",".intercalate (st.map showStep))
+  | _ => none
+
+end Copia.Driver.C08
